@@ -145,6 +145,19 @@ def build(ctx):
             raise sx.OutOfSubset("build_pvt_gas: no unique returning path")
         return rets[0]
 
+    def table_factor(stored, atom):
+        """c with stored == c * atom (c a numeric constant), else None"""
+        if stored is atom:
+            return tm.rconst(1)
+        if stored.op == "*" and atom in stored.args:
+            rest = [a_ for a_ in stored.args if a_ is not atom]
+            if all(tm.is_const(a_) for a_ in rest):
+                c_ = tm.rconst(1)
+                for a_ in rest:
+                    c_ = tm.mul(c_, a_)
+                return c_
+        return None
+
     def integrand_table():
         o = run_table()
         reg = o.heap["ghost"].get("cumtrapz", {})
@@ -158,14 +171,16 @@ def build(ctx):
         # the column stored is 2 * ctz; integrand 2*y[k] must be 2 p_k/(mu_k Z_k) with the table's own columns
         name = list(reg)[0]
         stored = tb.cols["pseudopressure"].get(k)
-        if stored is not tm.mul(tm.rconst(2), tm.app(name, [k])):
-            return be.Verdict(be.REFUTED, "CAS", witness={}, detail=f"pseudopressure column is not twice the cumulative trapezoid: {stored}")
+        c_ = table_factor(stored, tm.app(name, [k]))
+        if c_ is None:
+            return be.Verdict(be.REFUTED, "CAS", witness={}, detail=f"pseudopressure column is not a constant multiple of the cumulative trapezoid: {stored}")
         muk, zk = tb.cols["viscosity"].get(k), tb.cols["z-factor"].get(k)
         want = 2 * pk / (muk * zk)
-        v = be.prove_equal_cas(tm.mul(tm.rconst(2), q["y"]((k,))), want, dict(GAS_BOX, Tc=(-100.0, 50.0), Pc=(550.0, 800.0), maxp=(100.0, 14000.0), k=(0, 500)), seed=ctx.seed, ints=("k",), npoints=5)
+        # the trapezoid rule is linear: c * ctz(y) is the cumulative trapezoid of c * y
+        v = be.prove_equal_cas(tm.mul(c_, q["y"]((k,))), want, dict(GAS_BOX, Tc=(-100.0, 50.0), Pc=(550.0, 800.0), maxp=(100.0, 14000.0), k=(0, 500)), seed=ctx.seed, ints=("k",), npoints=5)
         return with_models(v, o)
 
-    obs.append(Obligation("integrand.table", "build_pvt_gas: pseudopressure == 2 * cumulative_trapezoid(p/(viscosity*z-factor), p) of the table's own columns (which are the stand-alone correlations: C19 pvt.rows)", integrand_table, [BP], "CAS", replay_routes))
+    obs.append(Obligation("integrand.table", "build_pvt_gas: pseudopressure == c * cumulative_trapezoid(y, p) with c * y == 2p/(viscosity*z-factor) of the table's own columns (which are the stand-alone correlations: C19 pvt.rows)", integrand_table, [BP], "CAS", replay_routes))
 
     def run_standalone():
         def mk():
@@ -210,7 +225,11 @@ def build(ctx):
             if nd.op == "app" and nd.args[0] in ("P", "MU", "ZZ"):
                 colname = {"P": "pressure", "MU": "viscosity", "ZZ": "z-factor"}[nd.args[0]]
                 sub[nd] = tb.cols[colname].get(nd.args[1])
-        lhs = tm.mul(tm.rconst(2), qt["inc"](k))
+        namet = list(regt)[0]
+        c_ = table_factor(tb.cols["pseudopressure"].get(k), tm.app(namet, [k]))
+        if c_ is None:
+            return be.Verdict(be.REFUTED, "CAS", witness={}, detail="pseudopressure column is not a constant multiple of the cumulative trapezoid")
+        lhs = tm.mul(c_, qt["inc"](k))
         rhs = tm.subst(inc_s, sub)
         v = be.prove_equal_cas(lhs, rhs, dict(GAS_BOX, Tc=(-100.0, 50.0), Pc=(550.0, 800.0), maxp=(100.0, 14000.0), k=(1, 500)), seed=ctx.seed, ints=("k",), npoints=5)
         return with_models(v, o, s_)
